@@ -35,9 +35,25 @@ import (
 	"time"
 
 	"github.com/magefile/mage/mg"
+	"github.com/magefile/mage/sh"
 )
 
 var n int
+
+// ShSleep blocks in an external command for ms milliseconds and ignores its context.
+func ShSleep(ctx context.Context, ms int) error {
+	i := n
+	n++
+	fmt.Printf("START %d %d\n", i, time.Now().UnixNano())
+	os.Stdout.Sync()
+	err := sh.Run("sleep", fmt.Sprintf("%d.%03d", ms/1000, ms%1000))
+	if ctx.Err() != nil {
+		fmt.Printf("END %d sawcancel\n", i)
+	} else {
+		fmt.Printf("END %d clean\n", i)
+	}
+	return err
+}
 
 // Sleep runs for ms milliseconds; with honour it returns as soon as its context is cancelled.
 func Sleep(ctx context.Context, ms int, honour bool, fail int) error {
@@ -95,6 +111,7 @@ type c12Target struct {
 	dur     int
 	honours bool
 	status  int
+	sh      bool // blocks in an external command (sh.Run "sleep") instead of sleeping in-process
 }
 
 type c12Case struct {
@@ -113,6 +130,10 @@ func (k c12Case) run(mageBin, static, dir string, env []string) J {
 		argv = append(argv, "-t", fmt.Sprintf("%dms", k.d))
 	}
 	for _, t := range k.targets {
+		if t.sh {
+			argv = append(argv, "shsleep", strconv.Itoa(t.dur))
+			continue
+		}
 		argv = append(argv, "sleep", strconv.Itoa(t.dur), strconv.FormatBool(t.honours), strconv.Itoa(t.status))
 	}
 	bin := static
@@ -125,11 +146,20 @@ func (k c12Case) run(mageBin, static, dir string, env []string) J {
 	cmd.Dir = dir
 	cmd.Env = runEnv
 	cmd.SysProcAttr = &syscall.SysProcAttr{Setpgid: true}
-	var so, se lockedBuf
-	cmd.Stdout, cmd.Stderr = &so, &se
+	// real files, not pipes: a process that outlives mage (an external command started by a target) must not keep the
+	// harness waiting, and mage itself must get *os.File descriptors as from a terminal
+	fo, _ := os.CreateTemp("", "c12out")
+	fe, _ := os.CreateTemp("", "c12err")
+	defer os.Remove(fo.Name())
+	defer os.Remove(fe.Name())
+	defer fo.Close()
+	defer fe.Close()
+	so, se := fileBuf{fo.Name()}, fileBuf{fe.Name()}
+	cmd.Stdout, cmd.Stderr = fo, fe
 	if err := cmd.Start(); err != nil {
 		return J{"status": -1, "ending": "not started: " + err.Error()}
 	}
+	defer syscall.Kill(-cmd.Process.Pid, syscall.SIGKILL) // whatever is left of the process group
 	done := make(chan error, 1)
 	go func() { done <- cmd.Wait() }()
 	// wait for the first START line: that is t0
@@ -200,6 +230,14 @@ func (k c12Case) run(mageBin, static, dir string, env []string) J {
 	return J{"status": st, "ending": ending, "started": len(startRx.FindAllString(out, -1)), "sawCancelRaw": saw, "elapsed": elapsed}
 }
 
+// fileBuf reads what has been written to a file so far.
+type fileBuf struct{ path string }
+
+func (f fileBuf) String() string {
+	b, _ := os.ReadFile(f.path)
+	return string(b)
+}
+
 type lockedBuf struct {
 	mu chan struct{}
 	b  bytes.Buffer
@@ -230,37 +268,43 @@ func c12Gen(r *rng.R, tier string) c12Case {
 		k.way = "mage"
 	}
 	hon := func() bool { return r.Bool() }
-	switch r.Intn(9) {
+	switch r.Intn(10) {
+	case 9: // the deadline strikes while the target is blocked in an external command that outlives it
+		k.d = d
+		k.targets = []c12Target{{dur: long, sh: true}}
+		if r.Bool() {
+			k.way = "mage"
+		}
 	case 0: // one target, finishes before the deadline
 		k.d = d
-		k.targets = []c12Target{{short, hon(), 0}}
+		k.targets = []c12Target{{short, hon(), 0, false}}
 	case 1: // one target, deadline while it runs
 		k.d = d
-		k.targets = []c12Target{{long, hon(), 0}}
+		k.targets = []c12Target{{long, hon(), 0, false}}
 	case 2: // shared deadline: each alone is shorter than d, together they are not
 		k.d = d
-		k.targets = []c12Target{{d * 7 / 10, hon(), 0}, {d * 7 / 10, hon(), 0}, {short, hon(), 0}}
+		k.targets = []c12Target{{d * 7 / 10, hon(), 0, false}, {d * 7 / 10, hon(), 0, false}, {short, hon(), 0, false}}
 	case 3: // several targets, all before the deadline
 		k.d = d
-		k.targets = []c12Target{{short / 2, hon(), 0}, {short / 2, hon(), 0}, {short / 2, hon(), 0}}
+		k.targets = []c12Target{{short / 2, hon(), 0, false}, {short / 2, hon(), 0, false}, {short / 2, hon(), 0, false}}
 	case 4: // no timeout, no signal: a long target completes untouched
-		k.targets = []c12Target{{long / 2, hon(), 0}, {short, hon(), 0}}
+		k.targets = []c12Target{{long / 2, hon(), 0, false}, {short, hon(), 0, false}}
 	case 5: // one SIGINT, honouring target
 		if r.Bool() {
 			k.d = long * 2
 		}
-		k.targets = []c12Target{{long, true, 0}, {short, true, 0}}
+		k.targets = []c12Target{{long, true, 0, false}, {short, true, 0, false}}
 		k.sig1 = short
 	case 6: // two SIGINTs, ignoring target
-		k.targets = []c12Target{{long * 2, false, 0}}
+		k.targets = []c12Target{{long * 2, false, 0, false}}
 		k.sig1 = short
 		k.sig2 = short + 400
 	case 7: // one SIGINT, ignoring target that ends within the grace period: its own result counts, the next target still runs
-		k.targets = []c12Target{{d, false, 0}, {short, false, 0}}
+		k.targets = []c12Target{{d, false, 0, false}, {short, false, 0, false}}
 		k.sig1 = short
 	case 8: // a failing target before the deadline; or (thorough) the five-second grace period
 		if tier == "thorough" && r.Chance(1, 2) {
-			k.targets = []c12Target{{7000, false, 0}}
+			k.targets = []c12Target{{7000, false, 0, false}}
 			k.sig1 = 300
 			if r.Bool() {
 				// a late SIGINT: the grace period counts from the signal, so the target (4 s to go) still ends in time
@@ -268,7 +312,7 @@ func c12Gen(r *rng.R, tier string) c12Case {
 			}
 		} else {
 			k.d = d
-			k.targets = []c12Target{{short, hon(), 0}, {short, hon(), 9}, {short, hon(), 0}}
+			k.targets = []c12Target{{short, hon(), 0, false}, {short, hon(), 9, false}, {short, hon(), 0, false}}
 		}
 	}
 	return k
@@ -297,6 +341,11 @@ func c12(c *Ctx) {
 			tj = append(tj, J{"dur": t.dur, "honours": t.honours, "status": t.status})
 		}
 		in := J{"op": "c12.run", "d": k.d, "targets": tj, "way": k.way}
+		for _, t := range k.targets {
+			if t.sh {
+				in["external"] = true
+			}
+		}
 		if k.sig1 != 0 {
 			in["sig1"] = k.sig1
 		}
